@@ -762,13 +762,20 @@ func (e *Engine) doSeq(s *slot, op Op) error {
 		}
 		return nil
 	}
-	var got []kv
-	if p := call(func() { got = collect(e.obtainSeq(s.sub, op, op.Op)) }); p != "" {
+	var got, again []kv
+	if p := call(func() {
+		seq := e.obtainSeq(s.sub, op, op.Op)
+		got = collect(seq)
+		again = collect(seq) // the returned sequence describes the result, not one consumption of it
+	}); p != "" {
 		return e.outcome(op.Op, what, p)
 	}
 	e.noteSeq(s, op, want)
 	if e.asserted(op.Op) {
 		if err := e.compareSeq(s.kind, what, got, want); err != nil {
+			return err
+		}
+		if err := e.compareSeq(s.kind, what+" (second pass over the same sequence)", again, want); err != nil {
 			return err
 		}
 	}
